@@ -52,6 +52,7 @@ def reciprocal_matrices(n, vl, vt):
     return {"LL": a + a.T, "TT": b + b.T, "LT": lt, "TL": -(vt ** 2 / vl ** 2) * lt.T}
 
 
+_tab_calls = [0]
 nsetups = 10 if Q else 120
 worst_kappa = worst_rec = 0.0
 for s_i in range(nsetups):
@@ -248,19 +249,23 @@ for t_i in range(2 if Q else 12):
         kinds.append(("crack_centre", lambda: scat.scat_factory("crack_centre", block, crack_length=1.0e-3)))
 
     def tabulated():
+        # (call 1, 5, 7, ...: unsorted frequencies AND mixed layouts; the other combinations on the other calls)
         # a data-backed scatterer: reciprocal matrices tabulated at 2 or 3 frequencies; the model frequencies below lie
         # inside AND outside the tabulated range (linear interpolation / extrapolation keeps the data reciprocal)
         nf_, na_ = int(rng.integers(2, 4)), int(rng.integers(6, 20))
         fs_ = np.sort(rng.uniform(0.8, 1.3, nf_)) * freq
         mats_ = [reciprocal_matrices(na_, block.longitudinal_vel, block.transverse_vel) for _ in range(nf_)]
         data_ = {k: np.stack([m[k] for m in mats_]) for k in ("LL", "LT", "TL", "TT")}
-        if rng.random() < 0.6:
+        _tab_calls[0] += 1
+        if _tab_calls[0] % 3 != 0:
             # the tabulated frequencies listed in another order (high to low / as measured), the matrices with them
             perm_ = rng.permutation(nf_) if rng.random() < 0.5 else np.arange(nf_)[::-1]
+            if np.array_equal(perm_, np.arange(nf_)):
+                perm_ = np.arange(nf_)[::-1]
             fs_ = fs_[perm_]
             data_ = {k: np.ascontiguousarray(v[perm_]) for k, v in data_.items()}
             chk.count(tabulated_frequency_order="not increasing")
-        if rng.random() < 0.6:
+        if _tab_calls[0] % 2 == 1:
             # S_TL derived from S_LT by the reciprocity relation as a transposed (non C-contiguous) array, next to contiguous keys
             data_["TL"] = -(block.transverse_vel ** 2 / block.longitudinal_vel ** 2) * data_["LT"].transpose(0, 2, 1)
             chk.count(tabulated_memory_layouts="mixed" if not data_["TL"].flags.c_contiguous else "all contiguous")
